@@ -82,7 +82,7 @@ Take(q, m, g, n, maxr) ==
          ELSE IF h.n <= n THEN Take(Tail(q), m, g, n - h.n, maxr)
          ELSE <<TRUE, <<[h EXCEPT !.n = h.n - n]>> \o Tail(q)>>
 
-(* Remove the key-value list of a 68 (each <<module, message, n>>) from the head of q. *)
+(* Remove the key-value list of a 68 (each <<module, message, n, content ok>>) from the head of q. *)
 RECURSIVE TakeAll(_, _)
 TakeAll(q, kvs) ==
     IF kvs = <<>> THEN <<TRUE, q>>
@@ -160,6 +160,7 @@ Chk68(more, kvs) ==
         t == TakeAll(AQdw, u)
     IN << <<"m68_out_of_turn", turn = "dev" /\ ph \in {"devmod", "run"}>>,
           <<"d2o_not_fifo_on_wire", t[1]>>,                      \* carries exactly the head of what modules wrote
+          <<"d2o_content_on_wire", \A i \in 1..Len(kvs) : kvs[i][4]>>,
           <<"d2o_unsent_at_round_end", more \/ ~t[1] \/ t[2] = <<>>>> >>  \* without IsMore everything written is on the wire
 
 Ev68(more, kvs) ==
@@ -260,6 +261,7 @@ Chk69(more, done, kvs) ==
     << <<"m69_out_of_turn", turn = "own">>,
        <<"d2o_not_handed_to_module", qdx = <<>>>>,
        <<"o2d_wire_differs_from_written", AsSegs(kvs, round) = qow>>,
+       <<"o2d_content_on_wire", \A i \in 1..Len(kvs) : kvs[i][4]>>,
        <<"produced_while_device_has_more", devMore => (kvs = <<>> /\ ~more /\ ~done)>>,
        <<"is_done_wrong_round", done = flags.doneNow>>,
        <<"is_more_flag", more = flags.block>> >>
